@@ -60,10 +60,10 @@ type Case struct {
 	Rev     int     `json:"rev"`     // screw: revolutions in quarter turns
 
 	// rep
-	A   []int `json:"a"`   // line start (world units)
-	B   []int `json:"b"`   // line end
-	Xfs []Xf  `json:"xfs"` // repeat.Mesh transforms
-	Mesh int  `json:"mesh"` // repeat.Mesh: base mesh id
+	A    []int `json:"a"`    // line start (world units)
+	B    []int `json:"b"`    // line end
+	Xfs  []Xf  `json:"xfs"`  // repeat.Mesh transforms
+	Mesh int   `json:"mesh"` // repeat.Mesh: base mesh id
 }
 
 // T is one projected transform.
